@@ -148,9 +148,12 @@ class TriggerHandler:
         # remembered the first time is still what we owe.
         current = sys.gettrace()
         if current != self.trace_call:
+            mine = self.__start_thread
+            self.__pass_on(current, getattr(mine, 'old', None), hasattr(mine, 'old'), False)
             self.__start_thread.old = current
         current = self.__thread_hook()
         if current != self.trace_call:
+            self.__pass_on(current, self.__old_thread_trace, True, True)
             self.__old_thread_trace = current
         sys.settrace(self.trace_call)
         threading.settrace(self.trace_call)
@@ -160,6 +163,35 @@ class TriggerHandler:
         # gettrace was added in 3.10, so use it if we can, else try to get from property
         # noinspection PyUnresolvedReferences,PyProtectedMember
         return threading.gettrace() if hasattr(threading, 'gettrace') else threading._trace_hook
+
+    def __pass_on(self, current, remembered, have_remembered: bool, for_new_threads: bool):
+        """
+        Keep the chain of remembered functions free of circles, before we remember a new one.
+
+        We are started again while another agent is installed. That agent (or one further down its chain) was started
+        while we were installed the first time: it remembers OUR function as the one before it. If we now remember its
+        function, the two remember each other, and at the end nobody knows what was there before either of us. The
+        agent that remembers us is given what we had remembered: it now comes before us in the chain, not after.
+        """
+        if not have_remembered:
+            return
+        seen = 0
+        other = getattr(current, '__self__', None)
+        while isinstance(other, TriggerHandler) and other is not self and seen < 8:
+            if for_new_threads:
+                theirs = other.__old_thread_trace
+            elif hasattr(other.__start_thread, 'old'):
+                theirs = other.__start_thread.old
+            else:
+                return
+            if theirs == self.trace_call:
+                if for_new_threads:
+                    other.__old_thread_trace = remembered
+                else:
+                    other.__start_thread.old = remembered
+                return
+            other = getattr(theirs, '__self__', None)
+            seen += 1
 
     def __put_back(self, remembered, for_new_threads: bool = False):
         """
